@@ -22,6 +22,12 @@ def gen_model(ctx, rng, bases=None, opts=None, want_tall=True, max_modes=None):
     ne = rng.randint(1, ctx.scale(5, 7))
     nf = rng.randint(ne if want_tall else 1, ctx.scale(9, 12))
     X = np.array([[rng.randint(-6, 6) for _ in range(nf)] for _ in range(ne)], dtype=float)
+    # dtypes: training data are often integer arrays (counts, raw images); the Identity basis keeps that dtype
+    dt = rng.choice(["float64"] * 6 + ["int64", "int32", "uint8"])
+    if dt == "uint8":
+        X = np.abs(X)
+    if dt != "float64":
+        X = X.astype(dt)
     if basis == "identity":
         nm = None if rng.random() < 0.4 else rng.randint(1, ne)
     elif basis == "svd":
@@ -32,7 +38,7 @@ def gen_model(ctx, rng, bases=None, opts=None, want_tall=True, max_modes=None):
         nm = max_modes
     opt_kind = rng.choice(opts or ["qr", "qr", "ccqr", "gqr"])
     opt = H.make_optimizer(opt_kind)
-    desc = {"basis": basis, "n_modes": nm, "opt": opt_kind, "X": X.tolist(), "seed": rng.randint(0, 20)}
+    desc = {"basis": basis, "n_modes": nm, "opt": opt_kind, "X": X.tolist(), "seed": rng.randint(0, 20), "dtype": dt}
     if opt_kind == "ccqr" and rng.random() < 0.6:
         costs = np.array([rng.randint(0, 12) / 2 for _ in range(nf)])
         opt = type(opt)(sensor_costs=costs)
@@ -43,7 +49,7 @@ def gen_model(ctx, rng, bases=None, opts=None, want_tall=True, max_modes=None):
     # with fewer modes).  Anything cached by those calls must not leak into the judged state.
     desc["history"] = []
     if rng.random() < 0.65:
-        X0 = np.array([[rng.randint(-6, 6) for _ in range(nf)] for _ in range(ne)], dtype=float)
+        X0 = np.array([[rng.randint(0, 6) for _ in range(nf)] for _ in range(ne)], dtype=float).astype(dt)
         desc["X0"] = X0.tolist()
         try:
             model.fit(X0.copy(), quiet=True, seed=rng.randint(0, 20))
@@ -63,13 +69,13 @@ def gen_model(ctx, rng, bases=None, opts=None, want_tall=True, max_modes=None):
                 desc["history"].append("reconstruction_error")
             except Exception:
                 pass
-        except ValueError:
+        except (ValueError, TypeError):
             pass
         model = _reset_n_sensors(model)
     try:
         model.fit(X.copy(), quiet=True, seed=desc["seed"])
-    except ValueError:
-        return None
+    except (ValueError, TypeError):
+        return None          # e.g. CCQR / GQR refuse integer basis matrices (in-place float update of an int array)
     desc["history"].append("fit(X)")
     # optionally: predictions with the sensor counts that will be judged, then a re-ranking with fewer modes that does
     # not refit the basis (update_n_basis_modes / prefit path)
@@ -86,7 +92,7 @@ def gen_model(ctx, rng, bases=None, opts=None, want_tall=True, max_modes=None):
         except Exception:
             pass
         model = _reset_n_sensors(model, keep=True)
-    return {"model": model, "desc": desc, "X": X, "B": np.array(model.basis_matrix_, dtype=float)}
+    return {"model": model, "desc": desc, "X": X.astype(float), "B": np.array(model.basis_matrix_, dtype=float)}
 
 
 def _reset_n_sensors(model, keep=False):
@@ -109,9 +115,9 @@ def rebuild(desc):
     if desc.get("costs") is not None:
         opt = CCQR(sensor_costs=np.array(desc["costs"]))
     model = SSPOR(basis=models.make_basis(desc["basis"], desc["n_modes"]), optimizer=opt)
-    X = np.array(desc["X"], dtype=float)
+    X = np.array(desc["X"], dtype=float).astype(desc.get("dtype", "float64"))
     if desc.get("X0") is not None:
-        X0 = np.array(desc["X0"], dtype=float)
+        X0 = np.array(desc["X0"], dtype=float).astype(desc.get("dtype", "float64"))
         nf = X0.shape[1]
         try:
             model.fit(X0.copy(), quiet=True, seed=1)
@@ -141,7 +147,7 @@ def rebuild(desc):
                 pass
         model.update_n_basis_modes(desc["update_modes"])
         model = _reset_n_sensors(model, keep=True)
-    return {"model": model, "desc": desc, "X": X, "B": np.array(model.basis_matrix_, dtype=float)}
+    return {"model": model, "desc": desc, "X": X.astype(float), "B": np.array(model.basis_matrix_, dtype=float)}
 
 
 def kappa(M):
